@@ -65,7 +65,10 @@ class Acceptor:
 def check_size_to_qty(acceptor, capital, price, precision, fee):
     from jesse import utils
     vios, classes = [], []
-    qty = utils.size_to_qty(capital, price, precision=precision, fee_rate=fee)
+    try:
+        qty = utils.size_to_qty(capital, price, precision=precision, fee_rate=fee)
+    except Exception as e:  # noqa  - positive capital and price, precision 0..8, fee in [0, 0.01]: nothing to reject
+        return [(f'C17:size_to_qty:raised-{type(e).__name__}', f'size_to_qty({capital!r}, {price!r}, precision={precision}, fee_rate={fee!r}) raised {e!r}')], classes, True
     step = Fraction(1, 10 ** precision)
     size = Fraction(capital) * (1 - 3 * Fraction(fee)) if fee != 0 else Fraction(capital)
     quotient = size / Fraction(price)
@@ -98,7 +101,10 @@ def check_size_to_qty(acceptor, capital, price, precision, fee):
 def check_risk_to_qty(acceptor, capital, risk, entry, stop, precision, fee):
     from jesse import utils
     vios, classes = [], []
-    qty = utils.risk_to_qty(capital, risk, entry, stop, precision=precision, fee_rate=fee)
+    try:
+        qty = utils.risk_to_qty(capital, risk, entry, stop, precision=precision, fee_rate=fee)
+    except Exception as e:  # noqa  - positive capital, a risk percentage in (0, 100], positive and different prices: nothing to reject
+        return [(f'C17:risk_to_qty:raised-{type(e).__name__}', f'risk_to_qty({capital!r},{risk!r},{entry!r},{stop!r},{precision},{fee!r}) raised {e!r}')], classes, True
     fq = Fraction(qty)
     step = Fraction(1, 10 ** precision)
     risk_per_qty = abs(Fraction(entry) - Fraction(stop))
@@ -319,13 +325,17 @@ def run_shard(acc, shard, nshards, seed, tier):
     runner.hyp_search(acc, risk_cases(), chk_risk, n // 2, seed + 1, tier, known=known)
 
     dec8 = st.one_of(st.integers(-10 ** 12, 10 ** 12).map(lambda k: k / 10 ** 8), st.integers(-10 ** 6, 10 ** 6).map(lambda k: k / 10),
-                     st.integers(0, 10 ** 9).map(lambda k: k / 10 ** 4), st.sampled_from([0.1, 0.2, 0.3, 1e-8, 0.7, 1.1, 2.2]))
+                     st.integers(0, 10 ** 9).map(lambda k: k / 10 ** 4), st.sampled_from([0.1, 0.2, 0.3, 1e-8, 0.7, 1.1, 2.2]),
+                     # 16-17 significant digits: balances of 1e7..9e7 units quoted to 8 decimals
+                     st.integers(10 ** 15, 9 * 10 ** 15).map(lambda k: k / 10 ** 8), st.integers(-9 * 10 ** 15, 9 * 10 ** 15).map(lambda k: k / 10 ** 8))
+    # pairs that nearly cancel / differ in the last quoted decimal
+    near = st.tuples(dec8, st.integers(-50, 50)).map(lambda t: (t[0], float(Decimal(repr(t[0])) + Decimal(t[1]) / 10 ** 8)))
 
     def chk_dec(c):
         vios, classes, nt = check_decimal(c[0], c[1])
         return dict(key=c, nontrivial=nt, classes=['decimal:float-sum-differs'] if nt else [], sample=dict(kind='decimal', a=c[0], b=c[1]),
                     violations=vios, sub='sum/subtract_floats')
-    runner.hyp_search(acc, st.tuples(dec8, dec8), chk_dec, n, seed + 2, tier, known=known,
+    runner.hyp_search(acc, st.one_of(st.tuples(dec8, dec8), st.tuples(dec8, dec8), near), chk_dec, n, seed + 2, tier, known=known,
                       describe=lambda c: dict(kind='decimal', a=c[0], b=c[1]))
 
     @st.composite
